@@ -61,7 +61,22 @@ func Sequential() {
 	L := vx.Param("L")
 	closed := false
 	for i := 0; i < L; i++ {
-		switch vx.Choice("step", 5) {
+		switch vx.Choice("step", 6) {
+		case 5:
+			// a reader whose callback panics (recovered by its caller, or a Goexit such as t.FailNow): the reader
+			// is gone, so the pages must be inaccessible again and later readers and Close must still work
+			func() {
+				defer func() { recover() }()
+				if vx.Choice("panicking_reader", 2) == 0 {
+					s.WithBytes(func(b []byte) error { panic("reader gave up") })
+				} else {
+					s.WithBytesFunc(func(b []byte) ([]byte, error) { panic("reader gave up") })
+				}
+			}()
+			if !closed {
+				vx.Assert("C11.noaccess_after_panicking_reader", vx.MemStateOf(0) == mapped|locked|pNone)
+				vx.Reach("C11.reader_panicked")
+			}
 		case 0:
 			called := false
 			err := s.WithBytes(func(b []byte) error {
